@@ -567,6 +567,29 @@ func main() {
 	fmt.Fprintf(&out, "def shorthandMethods : List (String × String) := [%s]\n\n", strings.Join(shorts, ", "))
 	js["shorthandMethods"] = shorts
 
+	// ---- the order of the calls in Tree.Add (every validation before the first mutation) and in Router.serveContext
+	callOrder := func(key string) string {
+		fi := byKey[key]
+		if fi == nil {
+			return "none"
+		}
+		var names []string
+		ast.Inspect(fi.decl.Body, func(n ast.Node) bool {
+			if ce, ok := n.(*ast.CallExpr); ok {
+				nm := calleeName(ce)
+				switch nm {
+				case "len", "make", "Lock", "Unlock", "RLock", "RUnlock", "Errorf":
+				default:
+					names = append(names, strconv.Quote(nm))
+				}
+			}
+			return true
+		})
+		return "some [" + strings.Join(names, ", ") + "]"
+	}
+	fmt.Fprintf(&out, "def addCallOrder : Option (List String) := %s\n", callOrder("internal/tree.Tree.Add"))
+	fmt.Fprintf(&out, "def serveCallOrder : Option (List String) := %s\n\n", callOrder(".Router.serveContext"))
+
 	// ---- which functions write shared state, directly or through a callee (fixpoint over the static call graph)
 	writes := map[string]bool{}
 	wset := map[*funcInfo]bool{}
